@@ -91,9 +91,15 @@ theorem trso_sound_no_surrogate_core (sep : SepTest) (G : MG Name) (hG : G.WF) (
       (constFam_ok (coinScm_compatible G) hG hr _)) := ⟨coinScm, coinScm_compatible G, rfl⟩
   have hcoin : Coin (famCtx (constFam coinScm G) G [targetPop] σ' (constFam_ok (coinScm_compatible G) hG hr _)) :=
     coin_famCtx G hG hr [targetPop] σ'
+  have hsub : ∀ p ∈ graphs, RSub G p.2 := by
+    intro p hp
+    rcases (surrogateToTransport_spec hG hv hg).2 p hp with rfl | ⟨_, ns, hns, hp2⟩
+    · exact rsub_self
+    · rw [hp2]; exact rsub_ctd hsmall hns
   have hI : Inv (TargetClass G hG hr σ') q G := by
     rintro ctx ⟨M', hM', rfl⟩
-    exact famCtx_initial σ' (constFam_ok hM' hG hr _) (by simp) rfl hnoT Y X graphs interventions
+    exact famCtx_initial σ' (constFam_ok hM' hG hr _) (by simp) rfl hnoT Y X graphs interventions hsub
+      (fun p _ v hne => absurd rfl hne)
   have hK : KNoSurr q := ⟨fun p hp => hZ p hp, rfl⟩
   obtain ⟨hgood, _, hden⟩ := trsoF_sound_engine sep (TargetClass G hG hr σ') hcoinMem hcoin KNoSurr kNoSurr_stable _
     (h67_noSurr sep _ _) q.fuel q G hinv hI hK e h _ ⟨M, hM, rfl⟩
